@@ -15,12 +15,18 @@ RULE = (
     "(including its whole content and empty ranges): replace, replace_with, insert, delete, "
     "replace_range, replace_range_with, delete_range with slices of every open depth (with and without "
     "isolating nodes). Oracle: every token up to and including N's open token and from N's close token "
-    "on is unchanged. lift_target on block ranges inside N never lifts out of N; can_split inside N "
+    "on is unchanged, and the close token matching N's open token is still the old one (N was not split "
+    "or merged). Slices include cuts from inside one isolating node to inside a following sibling. For a "
+    "direct replace whose slice has, on its open left side, an isolating node that is closed at its end "
+    "and that some open level accepts without wrapping, the node must stay together: its text and leaves, "
+    "when identifiable in the result, are exactly the text and leaves of one node of its type (the "
+    "slice-side guard of the fitter). lift_target on block ranges inside N never lifts out of N; can_split inside N "
     "never splits N; Slice.max_open(fragment, False) never opens through an isolating node and equals "
     "max_open above it. distinct = (schema, op, depth of N, range shape, slice has isolating node, "
     "outcome); trivial = empty range with empty slice."
 )
-ASSUMPTIONS = ["an operation that raises is C11's business; only returned results are judged here"]
+ASSUMPTIONS = ["an operation that raises is C11's business; only returned results are judged here",
+               "the slice-side clause is judged only where the fitter's first (non-wrapping) pass can place the isolating slice node; its wrapping pass may open such a node (upstream-identical)"]
 OPS = genops.REPLACE_FAMILY
 
 
@@ -29,7 +35,8 @@ def cases(tier):
 
 
 def floors(tier):
-    return {"ops_inside": 10000, "delete_family_inside": 2500, "lift_targets_inside": 200, "can_split_inside": 1000, "slice_maxopen_checks": 1000, "distinct_nontrivial": 120}
+    return {"ops_inside": 10000, "delete_family_inside": 2500, "lift_targets_inside": 200, "can_split_inside": 1000, "slice_maxopen_checks": 1000, "distinct_nontrivial": 120,
+            "slice_isolating_unit:kept": 50, "slices_spanning_sibling_isolating_nodes": 500}
 
 
 def isolating_nodes(tk, rs):
@@ -38,6 +45,92 @@ def isolating_nodes(tk, rs):
         if t[0] == "O" and rs.nodes[t[1]].isolating:
             out.append((i, gensteps.matching_close(tk, i)))
     return out
+
+
+def spanning_slices(sch, rnd, sources):
+    """Slices cut from inside one isolating node to inside a later sibling isolating node (what
+    a selection across two table cells / containers copies): several top-level isolating
+    nodes, open into the first and the last.  Confirmed by the reference cut."""
+    out = []
+    rs, leaf = sch.ref, sch.leaf
+    for sd, sp in sources:
+        tk = flat.toks(sp[4], leaf)
+        iso = isolating_nodes(tk, rs)
+        by_start = dict(iso)
+        for (a, b) in iso:
+            # following sibling(s): an isolating node opening right after this one closes
+            nxt = b + 1
+            hops = 0
+            while nxt in by_start and hops < 2 and rnd.random() < 0.8:
+                hops += 1
+                e2 = by_start[nxt]
+                f = rnd.randint(a + 1, b)
+                t = rnd.randint(nxt + 1, e2)
+                try:
+                    sl = sd.slice(f, t)
+                except Exception:
+                    break
+                if (flat.pt_frag(sl.content), sl.open_start, sl.open_end) == flat.ref_slice(sp[4], f, t, leaf):
+                    out.append(sl)
+                nxt = e2 + 1
+    return out
+
+
+def slice_unit(rs, content, open_start, open_end):
+    """The isolating node on the slice's open left side that is closed at its end (nothing of
+    the slice's right open side runs through it): the documented rule keeps such a node
+    together - the fitter must not open it.  Returns the plain node or None."""
+    cur, oe = content, open_end
+    for dpt in range(open_start):
+        if not cur or cur[0][0] != "n":
+            return None
+        node = cur[0]
+        if len(cur) > 1:
+            oe = 0
+        if rs.nodes[node[1]].isolating and oe <= dpt:
+            return node
+        cur = node[4]
+    return None
+
+
+def unit_fits_directly(rs, p, leaf, frm, tname):
+    from ..refschema import run as rrun
+
+    for lv in ancestor_levels(p, frm, leaf):
+        st = rrun(rs.nodes[lv[0]].regex, lv[1])
+        if st is not EMPTY and deriv(st, tname) is not EMPTY:
+            return True
+    return False
+
+
+def leafseq(children, leaf):
+    return [(t[0], t[1]) for t in flat.toks(children, leaf) if t[0] in ("T", "L")]
+
+
+def _find(hay, needle):
+    n = len(needle)
+    return [i for i in range(len(hay) - n + 1) if hay[i:i + n] == needle]
+
+
+def unit_kept_together(rs, leaf, old_children, slice_content, unit, new_children):
+    """None = not judged; True/False = the unit's text and leaves, identifiable in the result,
+    are (not) the exact text and leaves of one node of the unit's type."""
+    u = leafseq(unit[4], leaf)
+    if len(u) < 2 or _find(leafseq(old_children, leaf), u) or len(_find(leafseq(slice_content, leaf), u)) != 1:
+        return None
+    if len(_find(leafseq(new_children, leaf), u)) != 1:
+        return None  # dropped, or not identifiable
+    found = []
+
+    def walk(kids):
+        for c in kids:
+            if c[0] == "n":
+                if c[1] == unit[1] and leafseq(c[4], leaf) == u:
+                    found.append(c)
+                walk(c[4])
+
+    walk(new_children)
+    return bool(found)
 
 
 def types_in(children, out=None):
@@ -149,6 +242,10 @@ def case(ctx, rnd, i):
     iso = isolating_nodes(tk, rs)
     others = other_docs(sch, rnd, 2)
     slices = gensteps.valid_slices(sch, rnd, [(d, p)] + others, per=5)
+    span = spanning_slices(sch, rnd, [(d, p)] + others)
+    if span:
+        ctx.count("slices_spanning_sibling_isolating_nodes", len(span))
+        slices = slices + span[:6]
     base = describe_doc(sch, d)
     if i % 20 == 0:
         ctx.sample({"schema": sch.id, "doc": str(d)[:200]})
@@ -233,6 +330,34 @@ def case(ctx, rnd, i):
             if not head_ok or not tail_ok:
                 ctx.violation("leaked", "%s(%d,%d) inside the isolating %s at %d..%d changed content %s it: %s" % (
                     op, f, t, ntype, a, b, "before" if not head_ok else "after", str(tr.doc)[:300]), det, mech)
+                continue
+            if op == "replace":
+                # (replace_range re-cuts the slice before fitting; only the direct call is judged)
+                sc = flat.pt_frag(s.content)
+                unit = slice_unit(rs, sc, s.open_start, s.open_end)
+                if unit is not None and not unit_fits_directly(rs, p, leaf, f, unit[1]):
+                    # the guard covers the fitter's first pass (placing without wrapping); a unit
+                    # that no open level accepts directly goes through the wrapping pass, which
+                    # may open it (upstream-identical): not judged
+                    ctx.count("slice_isolating_unit:needs_wrapping_not_judged")
+                    unit = None
+                if unit is not None:
+                    kept = unit_kept_together(rs, leaf, p[4], sc, unit, flat.pt(tr.doc)[4])
+                    ctx.count("slice_isolating_unit:%s" % {None: "not_identifiable", True: "kept", False: "opened"}[kept])
+                    if kept is False:
+                        ctx.violation("slice-isolating-node-opened", "%s(%d,%d): the isolating %s on the slice's open left side is closed at its end, but its content was "
+                                      "merged into the surrounding document instead of staying one %s: %s" % (op, f, t, unit[1], unit[1], str(tr.doc)[:300]), det, mech)
+                        continue
+            # the node itself is still ONE node: the close token that matches its open token is
+            # the old close token (head and tail alone also hold when the node was split in two
+            # and the tail re-opened in a second copy)
+            try:
+                mc = gensteps.matching_close(new, a)
+            except AssertionError:
+                mc = None
+            if mc != len(new) - (L - b):
+                ctx.violation("node-split", "%s(%d,%d) inside the isolating %s at %d..%d: the node opened at %d now closes at %r, its old closing token is at %d (node split or merged): %s" % (
+                    op, f, t, ntype, a, b, a, mc, len(new) - (L - b), str(tr.doc)[:300]), det, mech)
                 continue
             ctx.cover([sch.id, op, depthN, f == a + 1 and t == b, f == t, bool(slice_types & {x for x in rs.nodes if rs.nodes[x].isolating}), bool(tr.steps)],
                       nontrivial=not (f == t and not slice_types))
